@@ -53,6 +53,25 @@ class Ok:
         self.v = v
 
 
+def deep_eq(a, b):
+    """structural equality of two values of the same type"""
+    if isinstance(a, list):
+        return len(a) == len(b) and all(deep_eq(x, y) for x, y in zip(a, b))
+    if isinstance(a, dict):
+        return all(deep_eq(a[k], b[k]) for k in a)
+    if isinstance(a, EnumV):
+        return isinstance(b, EnumV) and a.idx == b.idx and (a.payload is None or deep_eq(a.payload, b.payload))
+    if isinstance(a, Some):
+        return isinstance(b, Some) and deep_eq(a.v, b.v)
+    if isinstance(a, (Err, Ok)):
+        return type(a) is type(b) and deep_eq(a.v, b.v)
+    if isinstance(a, SliceV):
+        return a.len == b.len and all(deep_eq(a.ref.child(i).get(), b.ref.child(i).get()) for i in range(a.len))
+    if a is None or b is None:
+        return a is None and b is None
+    return a == b
+
+
 class Cell:
     __slots__ = ("v",)
 
@@ -526,6 +545,8 @@ class Interp:
 
     def binop(self, op, a, b, operand_ty, result_ty):
         t = strip_distinct(operand_ty)
+        if op in ("==", "!=") and not isinstance(a, (int, bool)):
+            return deep_eq(a, b) == (op == "==")
         if op in ("==", "!=", "<", "<=", ">", ">="):
             return {"==": a == b, "!=": a != b, "<": a < b, "<=": a <= b, ">": a > b, ">=": a >= b}[op]
         if isinstance(t, Bool):
